@@ -88,7 +88,8 @@ def get_sdr_data_helper(reserve_fn, get_fn, record_id, reservation_id=None):
                 # reduce max length
                 max_req_len -= 4
                 if max_req_len <= 0:
-                    retry = 0
+                    raise RetryError()
+                continue
             else:
                 raise CompletionCodeError(e.cc)
 
